@@ -49,6 +49,8 @@ class DefaultDeploymentManager(DeploymentManager):
                         deployment_config=deployment_config,
                     )
                 except Exception:
+                    for deps in self.dependency_graph.values():
+                        deps.discard(deployment_name)
                     self.events_map[deployment_name].set()
                     raise
                 if deployment_config.lazy:
@@ -75,6 +77,8 @@ class DefaultDeploymentManager(DeploymentManager):
                         await connector.deploy(deployment_config.external)
                     except Exception:
                         self.deployments_map.pop(deployment_name)
+                        for deps in self.dependency_graph.values():
+                            deps.discard(deployment_name)
                         self.events_map[deployment_name].set()
                         raise
                     if logger.isEnabledFor(logging.INFO):
